@@ -8,8 +8,11 @@ import (
 	"perkeep.org/internal/vrt"
 )
 
-func vLinClients(n, sched int, max int64) {
-	vrt.Schedules(sched)
+func vLinClients(n, sched int, yields bool, max int64) {
+	vrt.Preemptions(sched)
+	vrt.Schedules(3 + vrt.Tier()) // orders explored at points where the running goroutine stops anyway
+	vmodel.YieldAtBoundaries = yields
+	vNoPunch = vrt.Tier() == 0
 	vInstall()
 	a, b := vmodel.LinBlob{Ref: vB0, Data: "a"}, vmodel.LinBlob{Ref: vB1, Data: "bb"}
 	if b.Ref.Less(a.Ref) {
@@ -18,8 +21,10 @@ func vLinClients(n, sched int, max int64) {
 	blobs := []vmodel.LinBlob{a, b}
 	s := vOpen(&vmodel.KV{}, max)
 	var have0 uint
+	all := vrt.Bool()
 	for i := range blobs {
-		if vrt.Bool() {
+		// initial contents: nothing or everything (quick), any subset (thorough)
+		if (vrt.Tier() == 0 && all) || (vrt.Tier() > 0 && vrt.Bool()) {
 			op := vmodel.LinOp{Kind: vmodel.LinReceive, Blob: i}
 			vmodel.LinRun(s, blobs, &op)
 			vrt.Assert(op.Err == nil, "setup receive succeeds")
@@ -30,6 +35,8 @@ func vLinClients(n, sched int, max int64) {
 	for i := range ops {
 		ops[i].Kind = vrt.Choice(vmodel.LinOps)
 		ops[i].Blob = vrt.Choice(len(blobs))
+		// clients are interchangeable: only ascending (kind, blob) sequences are explored
+		vrt.Assume(i == 0 || ops[i-1].Kind*8+ops[i-1].Blob <= ops[i].Kind*8+ops[i].Blob)
 	}
 	vrt.RaceDetect(true)
 	vrt.PreemptAtLocks(true)
@@ -40,6 +47,12 @@ func vLinClients(n, sched int, max int64) {
 }
 
 // every append rolls over to a new pack file (fds grows while readers run)
-func VK14bDiskpacked2()         { vLinClients(2, 6, 1<<20) }
-func VK14bDiskpackedRollover2() { vLinClients(2, 6, 40) }
-func VK14bDiskpacked3()         { vLinClients(3, 6, 1<<20) }
+
+// Preemption points: lock acquisitions and go statements, plus (Yield entries) every file-system
+// and index call. Quick: one preemption per path; thorough: two. With max=40 every append rolls
+// over to a new pack file, so that s.fds grows while readers run.
+func VK14bDiskpacked2()              { vLinClients(2, 1+vrt.Tier(), false, 1<<20) }
+func VK14bDiskpackedRollover2()      { vLinClients(2, 1+vrt.Tier(), false, 40) }
+func VK14bDiskpackedYield2()         { vLinClients(2, 1+vrt.Tier(), true, 1<<20) }
+func VK14bDiskpackedRolloverYield2() { vLinClients(2, 1+vrt.Tier(), true, 40) }
+func VK14bDiskpacked3()              { vLinClients(3, 1, false, 1<<20) }
